@@ -538,6 +538,8 @@ def replay(cfg, cex):
                     return True, f"get_accessor_for_url raised {type(e).__name__}: {e}"
                 if type(a).__name__ != "ShardedHttpAccessor":
                     return True, f"dispatched to {type(a).__name__}"
+                local = sfa.ShardedFileAccessor(ds)
+                local.info = copy.deepcopy(info)
                 for cc, pl in payloads.items():
                     try:
                         got = a.fetch_chunk(S.KEY, cc)
@@ -545,6 +547,12 @@ def replay(cfg, cex):
                         return True, f"chunk {cc} readable locally but over HTTP: {type(e).__name__}: {e}"
                     if got != pl:
                         return True, f"chunk {cc}: HTTP returned {got!r}, stored {pl!r}"
+                    try:
+                        loc = local.fetch_chunk(S.KEY, cc)
+                    except Exception as e:
+                        return True, f"chunk {cc}: read over HTTP ({got!r}) but the local accessor raises {type(e).__name__}: {e} ({'legacy .index/.data' if cfg['legacy'] else '.shard'} files)"
+                    if bytes(loc) != got:
+                        return True, f"chunk {cc}: HTTP returned {got!r}, the local accessor {bytes(loc)!r} ({'legacy .index/.data' if cfg['legacy'] else '.shard'} files)"
                     with open(os.path.join(ds, "info"), "rb") as f:
                         want_info = f.read()
                     got_info = a.fetch_file("info")
